@@ -34,6 +34,8 @@ type c13Scenario struct {
 	Cfg        biCfg      `json:"cfg"`
 	WrapSingle bool       `json:"wrap_single"`    // pre-7 propagation (every transaction wrapped, SELECT before MULTI)
 	Snap       *c13Snap   `json:"snap,omitempty"` // nil: both links start from an empty snapshot (incremental phase only)
+	Preempt    bool       `json:"preempt,omitempty"`
+	Plan       []string   `json:"plan,omitempty"` // preemption plan over the wake-up statements of syncer/bisync.go
 }
 
 // c13Snap is the snapshot part of a scenario: what the sites hold when both links start.
@@ -292,8 +294,22 @@ func c13BootRaced(scn c13Scenario, l *biLinkT) (boot biBootResult, raced bool) {
 }
 
 func c13Exec(t *testing.T, scn c13Scenario, ch *mc.Chooser) mc.Result {
-	var res mc.Result
+	r, _, _ := c13ExecPlan(t, scn, ch)
+	return r
+}
+
+func c13ExecPlan(t *testing.T, scn c13Scenario, ch *mc.Chooser) (res mc.Result, seen, hit []string) {
 	msg := bubble(t, func() {
+		if scn.Preempt {
+			pre := installPreempt(scn.Plan)
+			curPre = pre
+			pre.armed = true
+			defer func() {
+				seen, hit = pre.seen, pre.hit
+				curPre = nil
+				pre.remove()
+			}()
+		}
 		biEnvReset()
 		mk := func(name, addr, runID string) *biSite {
 			s := &biSite{name: name, addr: addr, runID: runID, srv: redisd.New(addr), clientReqs: map[int]bool{}}
@@ -627,9 +643,9 @@ func c13Exec(t *testing.T, scn c13Scenario, ch *mc.Chooser) mc.Result {
 		res = mc.OK(obs, nontrivial, events)
 	})
 	if msg != "" {
-		return mc.Result{Verdict: "machinery", Clause: "bubble: " + msg}
+		return mc.Result{Verdict: "machinery", Clause: "bubble: " + msg}, seen, hit
 	}
-	return res
+	return res, seen, hit
 }
 
 // c13RaceAbortCount counts executions in which the raced start sequence stopped with BUSYKEY
@@ -793,6 +809,36 @@ func runC13(t *testing.T, rep *mc.Reporter) {
 					scn := c13Scenario{Writes: ws, Cfg: m, WrapSingle: wrap, Snap: &sn}
 					mc.RunScenario(rep, scn, bound, budget, func(ch *mc.Chooser) mc.Result { return c13Exec(t, scn, ch) })
 				}
+			}
+		}
+	}
+	// ---- preemption family: default link-step schedule, every wake-up statement of
+	// syncer/bisync.go reached by either link is a point at which the running goroutine may be
+	// held back until all others block
+	pbound := 1
+	pwrites := [][]c13Write{{{0, "txn"}, {1, "set"}}, {{0, "set"}, {1, "txnmarkerfirst"}}, {{0, "txn1"}, {0, "otherdb"}}}
+	if tier == "thorough" {
+		pbound = 2
+		pwrites = append(pwrites, []c13Write{{0, "txn"}, {1, "txn"}, {0, "set"}}, []c13Write{{0, "setex"}, {1, "markerval"}})
+	}
+	for _, ws := range pwrites {
+		for _, m := range modes {
+			for _, wrap := range []bool{false, true} {
+				idx++
+				if idx%nshards != shard || budget.Expired() {
+					continue
+				}
+				scn := c13Scenario{Writes: ws, Cfg: m, WrapSingle: wrap, Preempt: true}
+				rep.Scenario()
+				explorePreempt(rep, budget, pbound, func(plan []string, res mc.Result) {
+					sc := scn
+					sc.Plan = plan
+					rep.Exec(sc, nil, res)
+				}, func(plan []string) (mc.Result, []string, []string) {
+					sc := scn
+					sc.Plan = plan
+					return c13ExecPlan(t, sc, mc.NewChooser(nil))
+				})
 			}
 		}
 	}
